@@ -36,18 +36,15 @@ Example nv_parse_np_correct_applied : parse_np text0 (ev_np text0) opt0 = Ok (st
 Proof. rewrite (parse_np_correct _ _ _ (ev_np_ok text0)), parse0. reflexivity. Qed.
 
 (* parse_strip_errors / parse_np_correct, an error inside the document *)
+Definition c0_bad : context :=
+  Eval vm_compute in match init_context text_bad (OptionsMain.opts false 100) with Ok c => c | _ => cD end.
 Example nv_parse_strip_errors :
-  exists c0 e, init_context text_bad (OptionsMain.opts false 100) = Ok c0 /\
-               parse_document text_bad context (token text_bad) false c0 = Err e.
-Proof. do 2 eexists. split; vm_compute; reflexivity. Qed.
+  init_context text_bad (OptionsMain.opts false 100) = Ok c0_bad /\
+  parse_document text_bad context (token text_bad) false c0_bad = Err (UnknownEntityReference (b "nope") (1, 34)).
+Proof. split; vm_compute; reflexivity. Qed.
 Example nv_parse_strip_errors_applied :
-  exists c0 e, parse_document text_bad context (ev_np text_bad) false (strip_ctx c0) = Err e /\
-               parse text_bad (OptionsMain.opts false 100) = Err e.
-Proof.
-  destruct nv_parse_strip_errors as (c0 & e & H0 & H). exists c0, e. split.
-  - exact (parse_strip_errors _ _ _ _ _ (ev_np_ok text_bad) H).
-  - revert H0 H. vm_compute. intros H0 H. injection H0 as <-. vm_compute in H. injection H as <-. reflexivity.
-Qed.
+  parse_document text_bad context (ev_np text_bad) false (strip_ctx c0_bad) = Err (UnknownEntityReference (b "nope") (1, 34)).
+Proof. exact (parse_strip_errors _ _ _ _ _ (ev_np_ok text_bad) (proj2 nv_parse_strip_errors)). Qed.
 
 (* parse_document_strip from the middle of the document would need a stream; the statement starts at
    the beginning of the text, any context: here the initial one *)
